@@ -42,6 +42,7 @@ type AssertFail struct {
 }
 
 type Exec struct {
+	vfsTemp int
 	marshalled []Value
 	gshadow map[*ssa.Global]*Cell
 	eng          *Engine
